@@ -87,6 +87,18 @@ def build_harness():
     lock = os.path.join(HARNESS, "Cargo.lock")
     if not os.path.exists(lock):
         shutil.copy(os.path.join(REPO, "Cargo.lock"), lock)
+    # marginfi is a cdylib+lib, so its rlib has no hash in the file name: two package ids (two
+    # repository paths) in one target dir would overwrite each other's libmarginfi.rlib while cargo
+    # believes both are fresh. One target dir per repository path avoids it; this guard removes
+    # leftovers of other paths should they ever appear.
+    fpd = os.path.join(TARGET_DIR, "debug", ".fingerprint")
+    if os.path.isdir(fpd):
+        libs = [d for d in os.listdir(fpd) if re.match(r"marginfi-[0-9a-f]{16}$", d)
+                and any(f.startswith("lib-") for f in os.listdir(os.path.join(fpd, d)))]
+        if len(libs) > 1:
+            for d in os.listdir(fpd):
+                if d.startswith(("marginfi-", "marginfi_type_crate-", "marginfi-type-crate-", "mfi-harness-")):
+                    shutil.rmtree(os.path.join(fpd, d), ignore_errors=True)
     rc, out, dt = sh(["cargo", "build", "--offline"], cwd=HARNESS, timeout=3000)  # CARGO_TARGET_DIR from ENV
     if rc != 0:
         raise Broken("harness:cargo-build", out[-6000:])
